@@ -424,6 +424,7 @@ func checkC09(c *runCtx) {
 		{"relay over UDP", gatherCfg{Ifaces: gIfacesBasic, NetTypes: []string{"udp4"}, CandTypes: []string{"relay"}, URLs: []string{turnURL}, Depth: depth}},
 		{"relay over UDP, every Close reports an error", gatherCfg{Ifaces: gIfacesBasic, NetTypes: []string{"udp4"}, CandTypes: []string{"host", "relay"}, URLs: []string{turnURL}, Depth: depth - 1, CloseErr: true}},
 		{"host via UDPMux", gatherCfg{Ifaces: gIfacesBasic, NetTypes: []string{"udp4"}, CandTypes: []string{"host"}, UDPMux: "10.0.0.1:7000", Depth: depth}},
+		{"srflx via UDPMuxSrflx (universal mux)", gatherCfg{Ifaces: gIfacesBasic, NetTypes: []string{"udp4"}, CandTypes: []string{"srflx"}, URLs: []string{stunURL}, UDPMuxSrflx: "10.0.0.1:7002", Depth: depth}},
 		{"host + srflx + relay, started agent (Failed reachable)", gatherCfg{Ifaces: gIfacesBasic, NetTypes: []string{"udp4"}, CandTypes: []string{"host", "srflx", "relay"}, URLs: []string{stunURL, turnURL}, Depth: depth - 1, Start: true}},
 	}
 	if !c.quick() {
